@@ -52,7 +52,7 @@ PROPS.update({
         "rule": FILE_RULE,
         "trusted": ["codec crates (snap, flate2, lz4_flex, zstd): the model's compress/decompress are the table of (uncompressed, compressed) block pairs the codec produced in this run, each checked to decompress back"],
         "assumptions": [],
-        "not_proved": ["C01_roundtrip for whole files (w_run cfg es = Done f /\\ scans of f = es, rev es): the block level (C01_block_roundtrip) and the trailer (C01_open_reports_trailer) are proved; the multi-level tree invariant W of the writer and the cursor refinement R are proved only on the abstract models of design-notes/{WriterTree,Chain,CeilIndex}_probe.v and are tied to the executable model by the correspondence (byte-exact file comparison, scans through model and implementation) rather than by a Coq refinement proof"],
+        "not_proved": ["the composition for whole files is proved in two halves that are not yet joined: (block level + trailer) for the writer, and C01_scan_forward / C01_scan_backward for every well-formed store of any depth on the reader side (wf_store); the missing link is W: the file emitted by the writer model decodes to a wf_store whose content is the inserted entries — checked on every generated file by the extracted independent decoder and the executable StoreCheck.store_wf, and by byte-exact file comparison"],
     },
     "C09": {
         "prop_file": "props/C09.v",
@@ -135,7 +135,7 @@ NOT_APPLICABLE = {}
 
 MANIFEST_TEXT = {
     "C01": {
-        "text": "Proved for all inputs: block-level round trip (C01_block_roundtrip: insert, finish, parse, decode returns exactly the entries in order, for any strictly ascending entries of any lengths) and the trailer round trip (C01_open_reports_trailer). The whole-file composition is tied to the code by a byte-exact executable model: every run compares the model writer's file with the real writer's byte for byte for all six codecs, and full forward/backward scans through implementation, model reader and specification.",
+        "text": "Proved for all inputs: block-level round trip (C01_block_roundtrip), trailer round trip (C01_open_reports_trailer), and full forward/backward scans of every well-formed store of any index depth return exactly the content in order / in reverse then None (C01_scan_forward, C01_scan_backward, corollaries of the cursor refinement). The remaining link (writer output is such a store) is tied to the code by a byte-exact executable model: every run compares the model writer's file with the real writer's byte for byte for all six codecs, and full forward/backward scans through implementation, model reader and specification.",
         "design_ref": "DESIGN.md §5 C01, §4 (W, R)",
         "note": "Partial proof (see evidence.not_proved): whole-file theorem not yet composed. Trusted: kernel; transcription of writer.rs/block*.rs/reader_cursor.rs validated by correspondence; codec crates via per-run compression table; extraction, driver, harness. Axioms: none.",
         "technique": "Rocq proof (induction over inserts: block writer invariant, parse/decode inversion) + byte-exact model/implementation differential execution",
